@@ -66,3 +66,10 @@ Print Assumptions step_operator.
 Definition ex_trace : trace := mkTrace "t" "f" 2 4 [0;5;7;9;11] [0;5;7;9;11] None [] [] [] [] [].
 Example ex_ok : trace_ok ex_trace /\ fst (trace_step ex_trace 3) = ex_trace /\ tr_index (fst (trace_step ex_trace (-2))) = 0.
 Proof. unfold trace_ok. cbn. repeat split; lia. Qed.
+
+(** the special signal names of the model (INDEX, TS, MAX-INDEX, ...) are those regenerated from /repo on this run *)
+From WalModel Require Generated.
+From WalModel.proofs Require GeneratedTies.
+Theorem special_signals_are_the_repositorys : special_signals = Generated.special_signals_gen.
+Proof. exact GeneratedTies.special_signals_are_the_repositorys. Qed.
+Print Assumptions special_signals_are_the_repositorys.
